@@ -96,6 +96,52 @@ func NewAPI(p *Program, l *LayoutEngine) (*API, error) {
 			}
 		}
 	}
+	// a type-erased helper (result of interface type) behind a thin typed wrapper: the wrapper is what the
+	// operations call and what fixes the reply type, so the wrapper is the send helper
+	isOp := map[*ssa.Function]bool{}
+	for _, f := range a.Ops {
+		isOp[f] = true
+	}
+	for round := 0; round < 3; round++ {
+		for s, kind := range a.Senders {
+			res := s.Signature.Results()
+			if res.Len() == 0 || !types.IsInterface(res.At(0).Type()) {
+				continue
+			}
+			callers := map[*ssa.Function]bool{}
+			for _, fn := range p.AllFuncs {
+				for _, b := range fn.Blocks {
+					for _, in := range b.Instrs {
+						if c, ok := in.(ssa.CallInstruction); ok {
+							callee := c.Common().StaticCallee()
+							if callee == nil {
+								continue
+							}
+							if callee == s || callee.Origin() == s {
+								base := fn
+								for base.Parent() != nil {
+									base = base.Parent()
+								}
+								if base.Origin() != nil {
+									base = base.Origin()
+								}
+								callers[base] = true
+							}
+						}
+					}
+				}
+			}
+			if len(callers) != 1 {
+				continue
+			}
+			for c := range callers {
+				if !isOp[c] && pkgOf(c) == p.SSAPkg("uhppote") {
+					delete(a.Senders, s)
+					a.Senders[c] = kind
+				}
+			}
+		}
+	}
 	if len(a.Senders) < 2 {
 		return nil, fmt.Errorf("expected a directed and a broadcast send helper calling codec.Marshal, found %d", len(a.Senders))
 	}
@@ -453,7 +499,23 @@ func (a *API) WalkOp(name string, nReplies int) ([]OpPath, *Walker, error) {
 				replyT = ifaceArgs[1].Dyn
 				rec.ReplyType = typeName(replyT)
 			}
-			elemT := sig.Results().At(0).Type().Underlying().(*types.Slice).Elem()
+			resT := sig.Results().At(0).Type()
+			var elemT types.Type
+			var sink *Term
+			if sl, ok := resT.Underlying().(*types.Slice); ok {
+				elemT = sl.Elem()
+			} else {
+				// push style: the helper returns only an error and hands each reply to a callback argument
+				for i := 0; i < sig.Params().Len() && i+shift < len(args); i++ {
+					if fs, ok := sig.Params().At(i).Type().Underlying().(*types.Signature); ok && fs.Params().Len() == 1 && args[i+shift].Op == "closure" {
+						elemT = fs.Params().At(0).Type()
+						sink = args[i+shift]
+					}
+				}
+				if sink == nil {
+					return nil, false
+				}
+			}
 			concrete := !types.IsInterface(elemT)
 			if concrete {
 				// a generic helper instantiated with the reply type: the elements are replies, not interfaces holding them
@@ -471,6 +533,17 @@ func (a *API) WalkOp(name string, nReplies int) ([]OpPath, *Walker, error) {
 				}
 			}
 			cell.Val = &Term{Op: "slicev", Args: els, Typ: at}
+			if sink != nil {
+				sends = append(sends, rec)
+				w.event(Event{Kind: "send", Name: cname, Args: args, Pos: in.Pos(), Instr: in})
+				// the callback runs once per reply, in arrival order, when the transport succeeded
+				if w.boolAtom("isnil("+errT.String()+")", errT) {
+					for _, el := range els {
+						w.exec(sink.Fn, []*Term{el}, sink.Args, 1)
+					}
+				}
+				return errT, true
+			}
 			sl := &Term{Op: "sref", Cell: cell, Typ: sig.Results().At(0).Type(), Args: []*Term{mkInt(0, types.Typ[types.Int]), mkInt(int64(nReplies), types.Typ[types.Int])}}
 			res = &Term{Op: "tuple", Args: []*Term{sl, errT}}
 		}
